@@ -37,6 +37,8 @@ func ruleList(era string) []string {
 	return res
 }
 
+func init() { registerGen(genRuleLists) }
+
 func genRuleLists() {
 	l := newLean("RuleLists")
 	l.pf("namespace GV.Gen.RuleLists\n")
